@@ -110,9 +110,21 @@ def tla_value(v):
     raise TypeError(v)
 
 
-def run_tlc(module, cfg_kwargs, *, workers=None, simulate=None, depth=None, seed=None,
-            timeout=600, edges_path=None, coverage=False, extra_files=(), want_edges=True,
-            dfid=None, expect_violation=False, jvm_opts=None, keep_dir=None, compact_keys=True):
+def run_tlc(module, cfg_kwargs, **kw):
+    """run_tlc_once, tried a second time when the JVM itself failed (rc 255 without a verdict: several TLC
+    processes started at the same moment on a busy machine)."""
+    try:
+        return run_tlc_once(module, cfg_kwargs, **kw)
+    except HarnessTrouble as e:
+        if "rc=255" not in str(e):
+            raise
+        time.sleep(3)
+        return run_tlc_once(module, cfg_kwargs, **kw)
+
+
+def run_tlc_once(module, cfg_kwargs, *, workers=None, simulate=None, depth=None, seed=None,
+                 timeout=600, edges_path=None, coverage=False, extra_files=(), want_edges=True,
+                 dfid=None, expect_violation=False, jvm_opts=None, keep_dir=None, compact_keys=True):
     """Run TLC on specs/<module>.tla with a generated cfg.
 
     Returns dict(generated, distinct, depth, violated, violation_text, edges(int),
